@@ -31,6 +31,8 @@ type c05Attrs struct {
 	Volumes   [][2]string       `json:"volumes,omitempty"`       // (relative source, target)
 	EnvFiles  []string          `json:"env_files,omitempty"`     // relative
 	VolLong   bool              `json:"volumes_long_syntax,omitempty"`
+	BuildShort bool             `json:"build_short_syntax,omitempty"`
+	BuildTargetOnly bool        `json:"build_target_only,omitempty"` // main-file extending service: `build: {target: x}`, the context is inherited
 	LabelList bool              `json:"labels_as_list,omitempty"`
 	// tags of the override rules, meaningful on an extending service: `attr: !reset null` drops whatever was
 	// inherited for attr, `!override` replaces the inherited value wholesale instead of merging
@@ -57,6 +59,7 @@ type c05Scenario struct {
 	KeyPerm  bool       `json:"permute_document_keys"`
 	Kind     string     `json:"kind"` // "ok", "cycle", "missing-file", "missing-service", "base-is-dir"
 	Victim   string     `json:"victim,omitempty"`
+	VictimFile string   `json:"victim_file,omitempty"` // file declaring the victim ("" = the main file); the victim may be any link of a chain
 	ExecSeed uint64     `json:"exec_seed"`
 	MaxPerms int        `json:"max_perms"`
 	ExtraSeed uint64    `json:"extra_seed"`
@@ -125,6 +128,7 @@ func genC05(r *zsimrt.Run) *c05Scenario {
 		}
 		if on("build") {
 			a.BuildCtx = "./ctx-" + id
+			a.BuildShort = r.Chance("build-short", 1, 2)
 		}
 		if on("volumes") {
 			a.Volumes = [][2]string{{"./data-" + id, "/mnt/" + id}}
@@ -191,6 +195,12 @@ func genC05(r *zsimrt.Run) *c05Scenario {
 		mains[i], mains[j] = mains[j], mains[i]
 	}
 	sc.Svcs = append(all, mains...)
+	for i := range sc.Svcs {
+		s := &sc.Svcs[i]
+		if s.File == sc.Main && s.ExtSvc != "" && s.Attrs.BuildCtx == "" && r.Chance("build-target-only", 1, 3) {
+			s.Attrs.BuildTargetOnly = true
+		}
+	}
 	dotted := r.Chance("dotted-names", 1, 4)
 	for i := range sc.Svcs {
 		s := &sc.Svcs[i]
@@ -275,16 +285,38 @@ func genC05(r *zsimrt.Run) *c05Scenario {
 			}
 		}
 	case 1:
-		// a main service whose base (file or service) is unavailable
-		var cands []string
-		for _, s := range sc.Svcs {
-			if s.File == sc.Main && s.ExtFile != "" {
-				cands = append(cands, s.Name)
+		// some link of a chain that starts in the main file has its base (file or service) unavailable
+		reach := map[*c05Svc]bool{}
+		var walk func(s *c05Svc, depth int)
+		walk = func(s *c05Svc, depth int) {
+			if s == nil || reach[s] || depth > 10 {
+				return
+			}
+			reach[s] = true
+			if s.ExtSvc != "" {
+				f := s.ExtFile
+				if f == "" {
+					f = s.File
+				}
+				walk(sc.find(f, s.ExtSvc), depth+1)
+			}
+		}
+		for i := range sc.Svcs {
+			if sc.Svcs[i].File == sc.Main {
+				walk(&sc.Svcs[i], 0)
+			}
+		}
+		kind := []string{"missing-file", "missing-service", "base-is-dir"}[r.Draw("fault-kind", 3)]
+		var cands []*c05Svc
+		for i := range sc.Svcs {
+			s := &sc.Svcs[i]
+			if reach[s] && s.ExtSvc != "" && (kind == "missing-service" || s.ExtFile != "") {
+				cands = append(cands, s)
 			}
 		}
 		if len(cands) > 0 {
-			sc.Victim = cands[r.Draw("victim", len(cands))]
-			sc.Kind = []string{"missing-file", "missing-service", "base-is-dir"}[r.Draw("fault-kind", 3)]
+			v := cands[r.Draw("victim", len(cands))]
+			sc.Victim, sc.VictimFile, sc.Kind = v.Name, v.File, kind
 		}
 	}
 	sc.ExecSeed = uint64(1 + r.Draw("exec-seed", 1<<30))
@@ -347,8 +379,13 @@ func (sc *c05Scenario) layout(perm func(int) []int) *Layout {
 		if a.Command != nil {
 			y.Set("command", StrSeq(a.Command...))
 		}
-		if a.BuildCtx != "" {
-			y.Set("build", Map().Set("context", Str(a.BuildCtx)))
+		if a.BuildTargetOnly && a.BuildCtx == "" {
+			y.Set("build", Map().Set("target", Str("stage-"+s.Name)))
+		}
+		if a.BuildCtx != "" && a.BuildShort {
+			y.Set("build", Str(a.BuildCtx))
+		} else if a.BuildCtx != "" {
+			y.Set("build", Map().Set("context", Str(a.BuildCtx)).Set("target", Str("stage-"+s.Name)))
 		}
 		if a.Volumes != nil {
 			v := Seq()
@@ -512,6 +549,8 @@ func (sc *c05Scenario) resolve(file, name string, depth int) *c05Val {
 	}
 	if a.BuildCtx != "" {
 		v.BuildCtx = path.Join(dir, a.BuildCtx)
+	} else if a.BuildTargetOnly && v.BuildCtx == "" {
+		v.BuildCtx = dir // nothing inherited: the default context "." of the declaring (main) file
 	}
 	for _, e := range a.Volumes {
 		v.Volumes[e[1]] = path.Join(dir, e[0])
@@ -658,8 +697,19 @@ func runC05(sc *c05Scenario) *c05Result {
 	sort.Strings(mains)
 	// faults on the simulated disk
 	var victim *c05Svc
+	victimTarget := ""
 	if sc.Victim != "" {
-		victim = sc.find(sc.Main, sc.Victim)
+		vf := sc.VictimFile
+		if vf == "" {
+			vf = sc.Main
+		}
+		victim = sc.find(vf, sc.Victim)
+		if victim != nil {
+			victimTarget = victim.ExtFile
+			if victimTarget == "" {
+				victimTarget = victim.File
+			}
+		}
 	}
 	perms := permutations(len(mains), sc.MaxPerms, func(n int) int { return er.Draw("perm", n) })
 	var ref *Outcome
@@ -685,15 +735,15 @@ func runC05(sc *c05Scenario) *c05Result {
 				sc2 := *sc
 				sc2.Svcs = nil
 				for _, s := range sc.Svcs {
-					if !(s.File == victim.ExtFile && s.Name == victim.ExtSvc) {
+					if !(s.File == victimTarget && s.Name == victim.ExtSvc) {
 						sc2.Svcs = append(sc2.Svcs, s)
 					}
 				}
-				L2 := sc2.layout(nil)
-				if txt, ok := L2.Files[victim.ExtFile]; ok {
-					fs.WriteFile(victim.ExtFile, []byte(txt))
+				L2 := sc2.layout(keyPerm)
+				if txt, ok := L2.Files[victimTarget]; ok {
+					fs.WriteFile(victimTarget, []byte(txt))
 				} else {
-					fs.WriteFile(victim.ExtFile, []byte("services: {}\n"))
+					fs.WriteFile(victimTarget, []byte("services: {}\n"))
 				}
 			}
 		}
@@ -739,7 +789,7 @@ func runC05(sc *c05Scenario) *c05Result {
 		return out
 	case "missing-service":
 		if ref.OK {
-			problem("missing-base-service-accepted", victim.ExtSvc+" removed from "+victim.ExtFile)
+			problem("missing-base-service-accepted", victim.ExtSvc+" removed from "+victimTarget+" (base of "+victim.Name+" in "+victim.File+")")
 		} else if !strings.Contains(ref.Err, victim.ExtSvc) {
 			problem("missing-base-service-not-named", ref.Err)
 		}
